@@ -93,13 +93,20 @@ class Ctx:
         self.quick = tier == "quick"
 
     # ------------------------------------------------------------------ TLC
+    def jtmp(self):
+        """Per-check java.io.tmpdir (TLC leaves tlc-<n> directories behind); emptied on every call."""
+        d = os.path.join(self.work, "jtmp")
+        shutil.rmtree(d, ignore_errors=True)
+        os.makedirs(d, exist_ok=True)
+        return d
+
     def tlc(self, name, module, cfg=None, sim=None, workers=8, timeout=900, env=None, depth=None,
             emit=True, expect_violation=False):
         """Run TLC on spec/<module>.tla with spec/<cfg>.  sim=(num, depth) switches to
         -simulate.  Returns dict(states, generated, emitted=<path or None>)."""
         cfg = cfg or module + ".cfg"
         meta = os.path.join(self.work, "tlc-" + name)
-        cmd = TLC + ["-workers", str(workers), "-metadir", meta, "-cleanup", "-noGenerateSpecTE",
+        cmd = TLC[:1] + ["-Djava.io.tmpdir=" + self.jtmp()] + TLC[1:] + ["-workers", str(workers), "-metadir", meta, "-cleanup", "-noGenerateSpecTE",
                      "-config", cfg]
         if sim:
             cmd += ["-simulate", "num=%d" % sim[0], "-depth", str(sim[1]), "-seed", str(self.seed)]
@@ -251,7 +258,7 @@ class Ctx:
         n_events = sum(1 for _ in open(trace_file))
         if n_events == 0:
             raise ToolError("empty trace " + trace_file)
-        cmd = TLC[:1] + TRACE_JAVA_OPTS.split() + TLC[1:] + ["-workers", "1", "-metadir", meta, "-cleanup",
+        cmd = TLC[:1] + ["-Djava.io.tmpdir=" + self.jtmp()] + TRACE_JAVA_OPTS.split() + TLC[1:] + ["-workers", "1", "-metadir", meta, "-cleanup",
                                                              "-noGenerateSpecTE", "-config", cfg, module + ".tla"]
         env = {"TRACE": trace_file}
         rc, out, dt = sh(cmd, cwd=SPEC, env=env, timeout=timeout)
